@@ -38,11 +38,15 @@ type corpusSchema struct {
 	GenStack    string
 	GoOK        bool
 	PyOK        bool
-	GoTypes     map[string]bool // objects registered in the Go driver
-	Schemas     ast.Schemas     // IR handed to the Go jennies (context.schemas hook)
+	GoTypes     map[string]bool   // objects registered in the Go driver
+	GoBuilders  map[string]string // normalised builder name → Go name, registered in the Go driver
+	Schemas     ast.Schemas       // IR handed to the Go jennies (context.schemas hook)
 	Contexts    map[string]languages.Context
 	LangSchemas map[string]ast.Schemas // per-language schemas handed to the jennies (context.schemas hook)
 	Discards    int
+	Veneers     string // builder veneers (YAML) applied in the run
+	Extra       string // name of the fixed workload this schema comes from
+	Targets     map[string]string
 }
 
 type corpusOpts struct {
@@ -58,6 +62,14 @@ type corpusOpts struct {
 	CapsOverride func(c *amCaps)
 	Tag          string
 	NoAimed      bool
+	Extras       func(caps amCaps) []corpusExtra // fixed schemas with builder veneers (C09, C14)
+}
+
+type corpusExtra struct {
+	Name    string
+	AM      *amSchema
+	Veneers string            // YAML (builder transformations), may be empty
+	Targets map[string]string // "Builder.option" → dotted path the veneers are meant to make it write
 }
 
 type corpus struct {
@@ -91,7 +103,8 @@ func buildCorpus(r *Run, o corpusOpts) *corpus {
 			if o.CapsOverride != nil {
 				o.CapsOverride(&caps)
 			}
-			am := genAM(rng, caps, "pk", o.Profile)
+			profiles := strings.Split(o.Profile, ",")
+			am := genAM(rng, caps, "pk", profiles[i%len(profiles)])
 			cs := &corpusSchema{ID: sid, Format: format, AM: am, Docs: map[string][]amDoc{}, Faults: map[string][]amDoc{}, GoTypes: map[string]bool{}, Contexts: map[string]languages.Context{}}
 			c.prepare(cs, rng)
 			c.Schemas = append(c.Schemas, cs)
@@ -108,6 +121,21 @@ func buildCorpus(r *Run, o corpusOpts) *corpus {
 				idx++
 				cs := &corpusSchema{ID: sid, Format: format, AM: am, Docs: map[string][]amDoc{}, Faults: map[string][]amDoc{}, GoTypes: map[string]bool{}, Contexts: map[string]languages.Context{}}
 				c.prepare(cs, newRNG("aimed", o.Tag, r.Seed, ai, format))
+				c.Schemas = append(c.Schemas, cs)
+			}
+		}
+	}
+	if o.Extras != nil {
+		for _, format := range o.Formats {
+			caps := capsFor(format)
+			if o.CapsOverride != nil {
+				o.CapsOverride(&caps)
+			}
+			for ei, ex := range o.Extras(caps) {
+				sid := fmt.Sprintf("s%04d", idx)
+				idx++
+				cs := &corpusSchema{ID: sid, Format: format, AM: ex.AM, Docs: map[string][]amDoc{}, Faults: map[string][]amDoc{}, GoTypes: map[string]bool{}, Contexts: map[string]languages.Context{}, Veneers: ex.Veneers, Extra: ex.Name, Targets: ex.Targets}
+				c.prepare(cs, newRNG("extra", o.Tag, r.Seed, ei, format))
 				c.Schemas = append(c.Schemas, cs)
 			}
 		}
@@ -147,6 +175,12 @@ func (c *corpus) prepare(cs *corpusSchema, rng *RNG) {
 
 	outRoot := filepath.Join(c.dir, "out", cs.ID)
 	cfg := pipeCfg{Inputs: []pipeInput{input}, Types: true, Builders: c.opts.Builders, Converters: c.opts.Converters, OutDir: filepath.Join(outRoot, "%l")}
+	if cs.Veneers != "" {
+		vd := filepath.Join(in, "veneers")
+		_ = os.MkdirAll(vd, 0o755)
+		_ = os.WriteFile(filepath.Join(vd, "pk.yaml"), []byte(cs.Veneers), 0o644)
+		cfg.VeneerDirs = []string{vd}
+	}
 	for _, l := range c.opts.Langs {
 		flags := defaultLangFlags(l)
 		if l == "go" {
@@ -220,6 +254,18 @@ func (c *corpus) cleanup() { _ = os.RemoveAll(c.dir) }
 // Go driver
 
 var goMethodRe = regexp.MustCompile(`(?m)^func \(resource \*?(\w+)\) (UnmarshalJSONStrict|Validate|Equals)\(`)
+var goBuilderRe = regexp.MustCompile(`(?m)^var _ cog\.Builder\[(\w+)\] = \(\*(\w+)Builder\)\(nil\)`)
+
+func normName(s string) string {
+	var sb strings.Builder
+	for _, c := range strings.ToLower(s) {
+		if (c >= 'a' && c <= 'z') || (c >= '0' && c <= '9') {
+			sb.WriteRune(c)
+		}
+	}
+	return sb.String()
+}
+
 var goNewRe = regexp.MustCompile(`(?m)^func New(\w+)\(\) \*(\w+)`)
 
 const goDriverTmpl = `package main
@@ -227,11 +273,18 @@ const goDriverTmpl = `package main
 import (
 	"bufio"
 	"encoding/json"
+	"errors"
 	"fmt"
 	"os"
+	"reflect"
 	"strings"
+	"unsafe"
 %s
 )
+
+var _ = errors.New
+var _ = reflect.TypeOf
+var _ unsafe.Pointer
 
 type req struct {
 	ID   string          ` + "`json:\"id\"`" + `
@@ -239,6 +292,13 @@ type req struct {
 	Type string          ` + "`json:\"type\"`" + `
 	Doc  json.RawMessage ` + "`json:\"doc\"`" + `
 	Doc2 json.RawMessage ` + "`json:\"doc2\"`" + `
+	Ctor  []json.RawMessage ` + "`json:\"ctor\"`" + `
+	Calls []call            ` + "`json:\"calls\"`" + `
+}
+
+type call struct {
+	Option string            ` + "`json:\"option\"`" + `
+	Args   []json.RawMessage ` + "`json:\"args\"`" + `
 }
 
 type resp struct {
@@ -254,9 +314,210 @@ type resp struct {
 	SelfEqual   *bool           ` + "`json:\"self_equal,omitempty\"`" + `
 	Panic       string          ` + "`json:\"panic,omitempty\"`" + `
 	Unknown     bool            ` + "`json:\"unknown,omitempty\"`" + `
+	BuildErr    string          ` + "`json:\"build_err,omitempty\"`" + `
+	Internal    json.RawMessage ` + "`json:\"internal,omitempty\"`" + `
+	HarnessErr  string          ` + "`json:\"harness_err,omitempty\"`" + `
+	Recorded    int             ` + "`json:\"recorded\"`" + `
 }
 
 var stage string
+
+// --- builders (C09/C14) ---------------------------------------------------------------
+
+type nestedOps struct {
+	fixed   func(raw []byte) (any, error)
+	failing func() any
+}
+
+type fixedB[T any] struct{ v T }
+
+func (b fixedB[T]) Build() (T, error) { return b.v, nil }
+
+type failB[T any] struct{ err error }
+
+func (b failB[T]) Build() (T, error) { var z T; return z, b.err }
+
+func mkNested[T any](mkErr func(string) error) nestedOps {
+	return nestedOps{
+		fixed: func(raw []byte) (any, error) {
+			var v T
+			if err := json.Unmarshal(raw, &v); err != nil {
+				return nil, err
+			}
+			return fixedB[T]{v}, nil
+		},
+		failing: func() any { return failB[T]{mkErr("boom from nested builder")} },
+	}
+}
+
+func norm(s string) string {
+	var sb strings.Builder
+	for _, c := range strings.ToLower(s) {
+		if (c >= 'a' && c <= 'z') || (c >= '0' && c <= '9') {
+			sb.WriteRune(c)
+		}
+	}
+	return sb.String()
+}
+
+func isBuilderIface(t reflect.Type) bool {
+	if t.Kind() != reflect.Interface || t.NumMethod() != 1 {
+		return false
+	}
+	m := t.Method(0)
+	return m.Name == "Build" && m.Type.NumIn() == 0 && m.Type.NumOut() == 2
+}
+
+func containsBuilder(t reflect.Type, depth int) bool {
+	if depth > 6 {
+		return false
+	}
+	switch t.Kind() {
+	case reflect.Interface:
+		return isBuilderIface(t)
+	case reflect.Slice, reflect.Array, reflect.Map, reflect.Pointer:
+		return containsBuilder(t.Elem(), depth+1)
+	}
+	return false
+}
+
+const failMarker = "\"__FAIL__\""
+
+func decodeArg(t reflect.Type, raw json.RawMessage) (reflect.Value, error) {
+	if isBuilderIface(t) {
+		x := t.Method(0).Type.Out(0)
+		ops, ok := nested[x]
+		if !ok {
+			return reflect.Value{}, fmt.Errorf("no nested builder stub for %%s", x)
+		}
+		var b any
+		if string(raw) == failMarker {
+			b = ops.failing()
+		} else {
+			var err error
+			if b, err = ops.fixed(raw); err != nil {
+				return reflect.Value{}, fmt.Errorf("nested value for %%s: %%w", x, err)
+			}
+		}
+		v := reflect.New(t).Elem()
+		v.Set(reflect.ValueOf(b))
+		return v, nil
+	}
+	if containsBuilder(t, 0) {
+		switch t.Kind() {
+		case reflect.Slice:
+			var items []json.RawMessage
+			if err := json.Unmarshal(raw, &items); err != nil {
+				return reflect.Value{}, err
+			}
+			out := reflect.MakeSlice(t, 0, len(items))
+			for _, it := range items {
+				ev, err := decodeArg(t.Elem(), it)
+				if err != nil {
+					return reflect.Value{}, err
+				}
+				out = reflect.Append(out, ev)
+			}
+			return out, nil
+		case reflect.Map:
+			var items map[string]json.RawMessage
+			if err := json.Unmarshal(raw, &items); err != nil {
+				return reflect.Value{}, err
+			}
+			out := reflect.MakeMap(t)
+			for k, it := range items {
+				ev, err := decodeArg(t.Elem(), it)
+				if err != nil {
+					return reflect.Value{}, err
+				}
+				out.SetMapIndex(reflect.ValueOf(k).Convert(t.Key()), ev)
+			}
+			return out, nil
+		}
+		return reflect.Value{}, fmt.Errorf("unsupported builder-carrying parameter type %%s", t)
+	}
+	p := reflect.New(t)
+	if err := json.Unmarshal(raw, p.Interface()); err != nil {
+		return reflect.Value{}, fmt.Errorf("argument %%s into %%s: %%w", raw, t, err)
+	}
+	return p.Elem(), nil
+}
+
+func decodeArgs(ft reflect.Type, skip int, raws []json.RawMessage) ([]reflect.Value, error) {
+	if ft.NumIn()-skip != len(raws) {
+		return nil, fmt.Errorf("arity: function takes %%d arguments, %%d given", ft.NumIn()-skip, len(raws))
+	}
+	out := make([]reflect.Value, 0, len(raws))
+	for i, raw := range raws {
+		v, err := decodeArg(ft.In(i+skip), raw)
+		if err != nil {
+			return nil, err
+		}
+		out = append(out, v)
+	}
+	return out, nil
+}
+
+func buildOp(q req, r *resp) {
+	ctorAny, ok := builderCtors[q.Type]
+	if !ok {
+		r.Unknown = true
+		return
+	}
+	ctor := reflect.ValueOf(ctorAny)
+	args, err := decodeArgs(ctor.Type(), 0, q.Ctor)
+	if err != nil {
+		r.HarnessErr = "constructor: " + err.Error()
+		return
+	}
+	stage = "constructor"
+	b := ctor.Call(args)[0]
+	for _, c := range q.Calls {
+		var m reflect.Value
+		for i := 0; i < b.NumMethod(); i++ {
+			if norm(b.Type().Method(i).Name) == norm(c.Option) {
+				m = b.Method(i)
+			}
+		}
+		if !m.IsValid() {
+			r.HarnessErr = "no method for option " + c.Option
+			return
+		}
+		in, err := decodeArgs(m.Type(), 0, c.Args)
+		if err != nil {
+			r.HarnessErr = "option " + c.Option + ": " + err.Error()
+			return
+		}
+		stage = "option " + c.Option
+		m.Call(in)
+	}
+	// hooked state: the object under construction and the recorded nested-builder errors
+	if f := b.Elem().FieldByName("internal"); f.IsValid() {
+		fv := reflect.NewAt(f.Type(), unsafe.Pointer(f.UnsafeAddr())).Elem()
+		stage = "marshal internal"
+		if out, err := json.Marshal(fv.Interface()); err == nil {
+			r.Internal = out
+		}
+	}
+	if f := b.Elem().FieldByName("errors"); f.IsValid() && f.Kind() == reflect.Map {
+		r.Recorded = f.Len()
+	}
+	stage = "Build"
+	res := b.MethodByName("Build").Call(nil)
+	if !res[1].IsNil() {
+		r.BuildErr = res[1].Interface().(error).Error()
+		if r.BuildErr == "" {
+			r.BuildErr = "(empty error message)"
+		}
+		return
+	}
+	stage = "marshal built object"
+	out, err := json.Marshal(res[0].Interface())
+	if err != nil {
+		r.MarshalErr = err.Error()
+	}
+	r.Out = out
+}
 
 type typeOps struct {
 	roundtrip func(doc []byte, r *resp)
@@ -383,6 +644,14 @@ var registry = map[string]typeOps{
 %s
 }
 
+var builderCtors = map[string]any{
+%s
+}
+
+var nested = map[reflect.Type]nestedOps{
+%s
+}
+
 func handle(q req) (r resp) {
 	r.ID = q.ID
 	defer func() {
@@ -390,6 +659,10 @@ func handle(q req) (r resp) {
 			r.Panic = stage + ": " + fmt.Sprint(e)
 		}
 	}()
+	if q.Op == "build" {
+		buildOp(q, &r)
+		return
+	}
 	ops, ok := registry[q.Type]
 	if !ok {
 		r.Unknown = true
@@ -448,7 +721,7 @@ func (c *corpus) buildGoDriver() error {
 		cs.GoOK = true
 	}
 	for attempt := 0; attempt < 8; attempt++ {
-		var imports, entries strings.Builder
+		var imports, entries, bentries, nentries strings.Builder
 		n := 0
 		for _, cs := range c.Schemas {
 			if !cs.GoOK {
@@ -491,6 +764,31 @@ func (c *corpus) buildGoDriver() error {
 				used = true
 				n++
 			}
+			if c.opts.Builders {
+				seenX := map[string]bool{}
+				cs.GoBuilders = map[string]string{}
+				hasB := false
+				for _, p := range cs.Files.paths() {
+					if !strings.HasPrefix(p, "go/pk/") || !strings.HasSuffix(p, "_builder_gen.go") {
+						continue
+					}
+					for _, m := range goBuilderRe.FindAllStringSubmatch(string(cs.Files[p]), -1) {
+						x, nm := m[1], m[2]
+						fmt.Fprintf(&bentries, "\t%q: p_%s.New%sBuilder,\n", cs.ID+"."+normName(nm), cs.ID, nm)
+						cs.GoBuilders[normName(nm)] = nm
+						if !seenX[x] {
+							seenX[x] = true
+							fmt.Fprintf(&nentries, "\treflect.TypeOf((*p_%s.%s)(nil)).Elem(): mkNested[p_%s.%s](func(m string) error { return c_%s.MakeBuildErrors(\"nested\", errors.New(m)) }),\n", cs.ID, x, cs.ID, x, cs.ID)
+						}
+						hasB = true
+						used = true
+						n++
+					}
+				}
+				if hasB {
+					fmt.Fprintf(&imports, "\tc_%s \"example.com/gen/%s/cog\"\n", cs.ID, cs.ID)
+				}
+			}
 			if used {
 				fmt.Fprintf(&imports, "\tp_%s \"example.com/gen/%s/pk\"\n", cs.ID, cs.ID)
 			}
@@ -500,7 +798,7 @@ func (c *corpus) buildGoDriver() error {
 		}
 		drv := filepath.Join(root, "cmd", "driver")
 		_ = os.MkdirAll(drv, 0o755)
-		_ = os.WriteFile(filepath.Join(drv, "main.go"), []byte(fmt.Sprintf(goDriverTmpl, imports.String(), entries.String())), 0o644)
+		_ = os.WriteFile(filepath.Join(drv, "main.go"), []byte(fmt.Sprintf(goDriverTmpl, imports.String(), entries.String(), bentries.String(), nentries.String())), 0o644)
 		bin := filepath.Join(c.dir, "godriver")
 		cmd := exec.Command("go", "build", "-o", bin, "./cmd/driver")
 		cmd.Dir = root
@@ -545,11 +843,20 @@ func truncate(s string, n int) string {
 }
 
 type drvReq struct {
-	ID   string          `json:"id"`
-	Op   string          `json:"op"`
-	Type string          `json:"type"`
-	Doc  json.RawMessage `json:"doc,omitempty"`
-	Doc2 json.RawMessage `json:"doc2,omitempty"`
+	ID     string            `json:"id"`
+	Op     string            `json:"op"`
+	Type   string            `json:"type"`
+	Doc    json.RawMessage   `json:"doc,omitempty"`
+	Doc2   json.RawMessage   `json:"doc2,omitempty"`
+	Ctor   []json.RawMessage `json:"ctor,omitempty"`
+	Calls  []drvCall         `json:"calls,omitempty"`
+	PyCtor []any             `json:"py_ctor,omitempty"`
+}
+
+type drvCall struct {
+	Option string            `json:"option"`
+	Args   []json.RawMessage `json:"args"`
+	PyArgs []any             `json:"py_args,omitempty"` // shapes for the Python driver
 }
 
 type drvResp struct {
@@ -567,6 +874,12 @@ type drvResp struct {
 	Panic       string          `json:"panic"`
 	Unknown     bool            `json:"unknown"`
 	ImportErr   string          `json:"import_err"`
+	BuildErr    string          `json:"build_err"`
+	Internal    json.RawMessage `json:"internal"`
+	HarnessErr  string          `json:"harness_err"`
+	Recorded    int             `json:"recorded"`
+	CallErr     string          `json:"call_err"`    // python: exception raised by an option call
+	CallErrAt   int             `json:"call_err_at"` // index of that call
 }
 
 // runDriver feeds requests to a driver process (in shards, in parallel) and returns responses by id.
